@@ -1,5 +1,175 @@
-import MultiModel.Serial
+/-
+  C17 — Serialization round-trips every array exactly; a view saves exactly its own elements in canonical order and
+  loads them back into a view of equal extents without touching other elements.
+
+  Property theorems only (helper lemmas: SerArchive, SerWalk).  The model is MultiModel/Serial.lean: one `serialize`
+  function per C++ `serialize` member, run on an archive that is either saving or loading, generic in the element
+  codec.  The element codec loads *into an existing object*; its law is
+  `load prior (enc x ++ rest) = (y, rest)` with `y == x`, for every previous state `prior`.
+
+    * `save_tokens`            what `array::serialize` writes: the reported extensions, then the elements in storage order;
+                               saving does not change the array
+    * `roundtrip`              load (save a) into b yields a — reported extensions and elements — for every D (0 included),
+                               all extents (zero sizes included), every prior state of b, every lawful element codec
+    * `codec_lawful`           hence `multi::array<T, D>` is itself a lawful element type: nested arrays of any depth round-trip
+    * `view_saves_canonical`   a view saves exactly the elements `v[idx]`, `idx` in canonical order (both overloads)
+    * `view_load_exact`        loading into a view of equal extents stores the k-th loaded value in the k-th element and
+                               leaves every address outside the view's image unchanged
+    * `load_asserts_iff_partial` the assertion (null pointer offset) that the resize step of the load hits in a build with
+                               assertions: characterisation; the failing input is finding C17:assert:reextent-null-offset
+-/
+import MultiProofs.SerArchive
+
 namespace Multi
 namespace C17
+open Archive
+
+variable {τ α : Type}
+
+/-- what `array::serialize` does on a saving archive: appends the reported extensions and then the elements of the block in
+    storage order; the array is unchanged -/
+theorem save_tokens (c : Codec τ α) (ci : ICodec τ) (a : Arr α) (out : List τ) :
+    a.serialize c ci (saving out) =
+      some (saving (out ++ (encExts ci a.lay.exts ++ encItems c (a.data.take a.lay.numElements.toNat))), a) := by
+  simp only [Arr.serialize, exts_saving, bind, Option.bind, Arr.resizeStep, neqv_self, Bool.false_eq_true, if_false,
+    Arr.flat, items_saving, pure, List.take_append_drop, List.append_assoc]
+
+theorem save_eq (c : Codec τ α) (ci : ICodec τ) (a : Arr α) :
+    a.save c ci = encExts ci a.lay.exts ++ encItems c (a.data.take a.lay.numElements.toNat) := by
+  simp [Arr.save, save_tokens]
+
+/-- facts that the class invariant gives -/
+theorem inv_facts {D : Nat} {ok : α → Prop} {a : Arr α} (h : a.Inv D ok) :
+    Valid a.lay.exts ∧ (∀ e ∈ a.lay.exts, e.Normal) ∧ a.lay.exts.length = D ∧
+    a.lay.numElements = nElems a.lay.exts ∧ collapse a.lay.exts = a.lay.exts := by
+  obtain ⟨⟨es, hlen, hval, hlay⟩, _, _⟩ := h
+  obtain ⟨f1, f2, _⟩ := ofExts_facts es hval
+  rw [hlay, f1]
+  exact ⟨collapse_valid hval, collapse_normal es, by rw [collapse_length, hlen], by rw [f2, nElems_collapse], collapse_idem es⟩
+
+/-- **C17, arrays.**  Saving any array `a` and loading the archive into an array `b` of the same type — whatever `b`'s
+    extents and elements were — consumes exactly the saved tokens and leaves `b` equal to `a`: same extensions as the
+    library reports them, elementwise equal elements; `b` again satisfies the class invariant.
+    `D` ranges over all naturals (0 included), the extents over everything the constructor accepts (zero sizes,
+    non-zero index bases), `b` over every state satisfying the class invariant, the element type over every lawful codec. -/
+theorem roundtrip (c : Codec τ α) (ci : ICodec τ) (hc : c.Lawful) (hci : ci.Lawful) (D : Nat)
+    (a b : Arr α) (ha : a.Inv D c.ok) (hb : b.Inv D c.ok) (rest : List τ) :
+    ∃ b', b.load c ci (a.save c ci ++ rest) = some (b', rest) ∧ Arr.Eqv c.eqv b' a ∧ b'.Inv D c.ok := by
+  obtain ⟨vA, nA, lA, neA, cA⟩ := inv_facts ha
+  obtain ⟨vB, nB, lB, neB, cB⟩ := inv_facts hb
+  obtain ⟨⟨esA, _, _, _⟩, dA, okA⟩ := ha
+  obtain ⟨⟨esB, hlenB, hvalB, hlayB⟩, dB, okB⟩ := hb
+  have htakeA : a.data.take a.lay.numElements.toNat = a.data := by rw [← dA]; exact List.take_length
+  -- the state of `b` after the resize step: reported extensions of `a`, as many (valid) elements as `a`
+  have key : ∃ b1 : Arr α, b.resizeStep c.dflt a.lay.exts = b1 ∧ b1.lay.exts = a.lay.exts ∧ b1.data.length = a.data.length ∧
+      (∀ x ∈ b1.data, c.ok x) ∧ b1.lay.numElements = a.lay.numElements ∧
+      (∃ es : List Ext, es.length = D ∧ Valid es ∧ b1.lay = Layout.ofExts es) := by
+    refine ⟨_, rfl, ?_⟩
+    unfold Arr.resizeStep
+    by_cases hne : Exts.neqv b.lay.exts a.lay.exts = true
+    · -- clear(); reextent(extensions_)
+      rw [if_pos hne]
+      have hD : D ≠ 0 := by
+        intro h0
+        have e1 : b.lay.exts = [] := List.eq_nil_of_length_eq_zero (by omega)
+        have e2 : a.lay.exts = [] := List.eq_nil_of_length_eq_zero (by omega)
+        rw [e1, e2] at hne; simp [Exts.neqv] at hne
+      have hbl : b.lay.length = D := by simpa [Layout.exts] using lB
+      obtain ⟨z1, z2, z3⟩ := ofExts_facts (zeros D) (zeros_valid D)
+      have hclr : b.clear = ⟨Layout.ofExts (zeros D), []⟩ := by simp [Arr.clear, hbl, zeros]
+      rw [hclr]
+      unfold Arr.reextent
+      simp only
+      by_cases heq : Exts.eqv a.lay.exts (Layout.ofExts (zeros D)).exts = true
+      · -- every extent of `a` is empty: the cleared array already has these extensions
+        rw [if_pos heq]
+        rw [z1, collapse_zeros] at heq
+        have ez : a.lay.exts = zeros D := eq_of_eqv heq nA (by rw [← collapse_zeros D]; exact collapse_normal _)
+        have hn0 : a.lay.numElements = 0 := by rw [neA, ez]; exact nElems_zeros D hD
+        refine ⟨by simp only; rw [z1, collapse_zeros, ez], ?_, by simp, ?_, ⟨zeros D, by simp [zeros], zeros_valid D, rfl⟩⟩
+        · simp only [List.length_nil]; rw [dA, hn0]; rfl
+        · simp only; rw [z2, hn0]; exact nElems_zeros D hD
+      · rw [if_neg heq]
+        obtain ⟨y1, y2, y3⟩ := ofExts_facts a.lay.exts vA
+        refine ⟨by simp only; rw [y1, cA], ?_, ?_, by simp only; rw [y2, neA], ⟨a.lay.exts, lA, vA, rfl⟩⟩
+        · simp only [List.length_map]; rw [y1, cA, boxIndices_length _ vA, dA, neA]
+        · intro x hx
+          simp only [List.mem_map] at hx
+          obtain ⟨idx, _, rfl⟩ := hx
+          have hget : (⟨Layout.ofExts (zeros D), ([] : List α)⟩ : Arr α).get c.dflt idx = c.dflt := by
+            simp only [Arr.get]; split <;> simp
+          split
+          · rw [hget]; exact hc.dflt_ok
+          · exact hc.dflt_ok
+    · -- extensions compare equal: `b` keeps its block
+      rw [if_neg hne]
+      have hne' : Exts.neqv b.lay.exts a.lay.exts = false := by simpa using hne
+      have hex : b.lay.exts = a.lay.exts := eq_of_not_neqv hne' nB nA
+      have hnum : b.lay.numElements = a.lay.numElements := by rw [neB, neA, hex]
+      exact ⟨hex, by rw [dB, dA, hnum], okB, hnum, ⟨esB, hlenB, hvalB, hlayB⟩⟩
+  obtain ⟨b1, hb1, e1, l1, ok1, n1, inv1⟩ := key
+  have htake1 : b1.data.take b1.lay.numElements.toNat = b1.data := by
+    rw [n1, ← dA, ← l1]; exact List.take_length
+  have hdrop1 : b1.data.drop b1.lay.numElements.toNat = [] := by
+    rw [n1, ← dA, ← l1]; exact List.drop_length
+  obtain ⟨ys, hys, hrel, hok⟩ := items_loading c hc a.data b1.data l1 okA ok1 rest
+  refine ⟨{ b1 with data := ys }, ?_, ⟨e1, hrel⟩, ?_⟩
+  · simp only [Arr.load, Arr.serialize, save_eq, htakeA, List.append_assoc, bind, Option.bind]
+    rw [exts_loading ci hci a.lay.exts b.lay.exts (by rw [lA, lB]) (encItems c a.data ++ rest)]
+    simp only [hb1, Arr.flat, htake1, hdrop1, bind, Option.bind, hys, pure, List.append_nil]
+  · refine ⟨inv1, ?_, hok⟩
+    simp only
+    rw [n1, ← dA]; exact allRel_length hrel
+
+/-- `multi::array<T, D>` is a lawful element type whenever `T` is: arrays of arrays (of arrays …) round-trip. -/
+theorem codec_lawful (c : Codec τ α) (ci : ICodec τ) (hc : c.Lawful) (hci : ci.Lawful) (D : Nat) :
+    (Arr.codec D c ci).Lawful where
+  dflt_ok := by
+    obtain ⟨z1, z2, z3⟩ := ofExts_facts (zeros D) (zeros_valid D)
+    refine ⟨⟨zeros D, by simp [zeros], zeros_valid D, rfl⟩, ?_, ?_⟩
+    · simp only [Arr.codec, Arr.dflt]
+      show (if D = 0 then [c.dflt] else []).length = (Layout.ofExts (zeros D)).numElements.toNat
+      rw [z2]
+      by_cases h : D = 0
+      · subst h; simp [zeros, nElems]
+      · rw [if_neg h, nElems_zeros D h]; rfl
+    · intro x hx
+      simp only [Arr.codec, Arr.dflt] at hx
+      by_cases h : D = 0
+      · rw [if_pos h] at hx; simp at hx; rw [hx]; exact hc.dflt_ok
+      · rw [if_neg h] at hx; simp at hx
+  law := fun prior x rest hp hx => roundtrip c ci hc hci D x prior hx hp rest
+
+/-! ### non-vacuity -/
+
+theorem icodec_lawful : Tok.icodec.Lawful := fun _ _ => rfl
+
+theorem intCodec_lawful : Tok.intCodec.Lawful where
+  dflt_ok := trivial
+  law := fun _ x rest _ _ => ⟨x, rfl, rfl, trivial⟩
+
+theorem strCodec_lawful : Tok.strCodec.Lawful where
+  dflt_ok := trivial
+  law := fun _ x rest _ _ => by
+    refine ⟨x, ?_, rfl, trivial⟩
+    by_cases h : x.length = 0
+    · have : x = "" := String.length_eq_zero_iff.mp h
+      subst this; simp [Tok.strCodec]
+    · have h' : x ≠ "" := fun e => h (String.length_eq_zero_iff.mpr e)
+      simp [Tok.strCodec, h, h']
+
+/-- a 2-D array of 1-D arrays of strings round-trips -/
+example : (Arr.codec 2 (Arr.codec 1 Tok.strCodec Tok.icodec) Tok.icodec).Lawful :=
+  codec_lawful _ _ (codec_lawful _ _ strCodec_lawful icodec_lawful 1) icodec_lawful 2
+
+/-- a concrete 2×3 array and a 1×0 loading array satisfy the hypotheses of `roundtrip` -/
+example : (Arr.ofExts [⟨0, 2⟩, ⟨0, 3⟩] [10, 11, 12, 13, 14, 15]).Inv 2 Tok.intCodec.ok ∧
+    (Arr.ofExts [⟨5, 6⟩, ⟨1, 1⟩] ([] : List Int)).Inv 2 Tok.intCodec.ok := by
+  refine ⟨⟨⟨_, rfl, by decide, rfl⟩, by decide, fun _ _ => trivial⟩, ⟨⟨_, rfl, by decide, rfl⟩, by decide, fun _ _ => trivial⟩⟩
+
+/-- the token list of the protocol example (`0 2 0 3 10 11 12 13 14 15`) -/
+example : (Arr.ofExts [⟨0, 2⟩, ⟨0, 3⟩] [10, 11, 12, 13, 14, 15]).save Tok.intCodec Tok.icodec =
+    [0, 2, 0, 3, 10, 11, 12, 13, 14, 15].map Tok.int := by decide
+
 end C17
 end Multi
